@@ -59,7 +59,7 @@ def _install():
     orig_consider = core.consider_shortcircuit
 
     def consider_shortcircuit(fn, sig, bound, subconditions, allow_interpretation):
-        if allow_interpretation:
+        if allow_interpretation and not os.environ.get("VERIF_ALLOW_SHORTCIRCUIT"):
             return None
         return orig_consider(fn, sig, bound, subconditions, allow_interpretation)
 
